@@ -67,16 +67,15 @@ Definition s_F : nat -> R := fun _ => 9 / 10.
 Lemma s_feasible : feasible 1 s_sent w_G s_F /\ evalGF w_G s_F w_obj = 9 / 10.
 Proof.
   split.
-  - split.
+  - split; [intros i j; reflexivity|]. split.
     + split; [reflexivity|]. intro c. cbn [sumn]. unfold w_G. nra.
     + unfold s_sent. apply Forall_cons; [|apply Forall_cons; [|apply Forall_cons; [|apply Forall_nil]]].
       * cbn [item_holds holdsGF fst snd evalGF evalKGF]. unfold s_F. q2r. lra.
       * cbn [item_holds holdsGF fst snd evalGF evalKGF]. unfold w_G. q2r. lra.
       * cbn [item_holds]. split.
-        -- intros i j. unfold lmi_value, entry, s_lmi.
-           destruct i as [|[|i]], j as [|[|j]]; cbn [nth evalGF evalKGF]; try reflexivity;
-             try (destruct i; reflexivity); try (destruct j; reflexivity);
-             try (destruct i, j; reflexivity).
+        -- intros i j Hi Hj. unfold lmi_value, entry, s_lmi, nrows in *. cbn [length] in *.
+           destruct i as [|[|i]], j as [|[|j]]; try lia; cbn [nth evalGF evalKGF]; try reflexivity.
+           all: unfold s_F; q2r; lra.
         -- intro c. unfold lmi_value, entry, s_lmi, nrows. cbn [length sumn nth evalGF evalKGF].
            unfold w_G, s_F. q2r.
            pose proof (Rle_0_sqr (9 / 10 * c 0%nat + c 1%nat)) as Hsq. unfold Rsqr in Hsq. nra.
